@@ -179,7 +179,12 @@ def gen_dataset_case(rng, confirm, i):
     shape = rng.choice(["flat", "flat", "hive", "hive", "drill", "subdatasets"])
     k = rng.choice([1, 2, 2, 3, 3, 4, 6])
     cat_mode = "none"
-    if confirm:
+    objbool = False
+    if confirm and i % 2 == 1:
+        objbool = True                 # the known finding: an object column holding booleans, first file with 0 rows
+        k = max(k, 2)
+        shape = "flat"
+    elif confirm:
         cat_mode = "differ"            # the known finding: files with different dictionaries
         k = max(k, 2)
         shape = rng.choice(["flat", "hive"])
@@ -191,6 +196,8 @@ def gen_dataset_case(rng, confirm, i):
     ext = rng.choice([".parquet", ".parquet", ".parq"])
     for j in range(k):
         n = rng.choice([0, 1, 2, 3, 5, 8])
+        if objbool:
+            n = 0 if j == 0 else max(n, 1)
         if shape == "flat":
             d = []
         elif shape == "hive":
@@ -207,13 +214,13 @@ def gen_dataset_case(rng, confirm, i):
         else:
             cats = None
         files.append({"dir": d, "name": name, "n": n, "off": off, "codec": rng.choice([None, None, "GZIP", "SNAPPY", "ZSTD"]),
-                      "rgo": rng.choice([None, None, 2]) if n > 2 else None, "cats": cats})
+                      "rgo": rng.choice([None, None, 2]) if n > 2 else None, "cats": cats, "objbool": objbool})
         off += n + 1
     if shape in ("hive", "drill") and rng.random() < 0.5:
         root_mode = "given"
     else:
         root_mode = "inferred"
-    verify = rng.random() < 0.35
+    verify = rng.random() < 0.35 and not objbool
     bad_schema = verify and k >= 2 and rng.random() < 0.5
     # list variations: the same file twice; paths relative to the working directory; the root with a trailing slash
     dup = rng.randrange(k) if (shape != "subdatasets" and not bad_schema and rng.random() < 0.15) else None
@@ -234,6 +241,8 @@ def _frame(spec, bad=False):
          "s": pd.Series(["r%d" % x for x in range(off, off + n)], dtype="str")}
     if spec["cats"]:
         d["c"] = pd.Categorical.from_codes([x % len(spec["cats"]) for x in range(n)], categories=spec["cats"])
+    if spec.get("objbool"):
+        d["b"] = np.array([bool(x % 2) for x in range(n)] + [None], dtype=object)[:-1]
     if bad:
         d["v"] = d["v"].astype("float32")
     return pd.DataFrame(d)
@@ -284,7 +293,8 @@ def check_dataset(case, root, pq, ctx=None, verbose=False):
     if case.get("junk"):           # files that are not parquet data next to the data
         open(os.path.join(root, "README.txt"), "w").write("not a parquet file\n")
         open(os.path.join(os.path.dirname(paths[0]) if shape != "subdatasets" else root, ".hidden.crc"), "w").write("x")
-    cols = ["id", "v", "s"] + (["c"] if case["cat_mode"] != "none" else [])
+    objbool = any(f.get("objbool") for f in case["files"])
+    cols = ["id", "v", "s"] + (["b"] if objbool else []) + (["c"] if case["cat_mode"] != "none" else [])
     # individual reads (C01's business) and the partition columns the directory names spell
     singles = []
     for p in paths:
@@ -321,6 +331,7 @@ def check_dataset(case, root, pq, ctx=None, verbose=False):
         return _canon_frame(df, [c for c in cols if c in use] + (["k"] if shape == "subdatasets" else []) + pc)
 
     cls0 = {"shape": shape, "relative": bool(case.get("relative")), "categorical": case["cat_mode"],
+            "object_column_first_file_empty": objbool,
             "dictionaries_differ": case["cat_mode"] == "differ" and len({tuple(f["cats"]) for f in case["files"]}) > 1}
 
     def compare(via, fn, order, base_dir, **kw):
